@@ -26,7 +26,8 @@ MANIFEST = {
             "tick + 1 ms before that instant and never after it in model time; re-registering a name kills the task that held it and "
             "binds the name to the new one; an unregistered task never runs again (never at all if it had not run yet); Clear and Close "
             "cancel every task; nothing is run by a timer after Close; in the actor-level model no callback is executed once the actor has terminated "
-            "(whatever is still queued is dropped) and its wheel is stopped. As shipped the property is refuted (C08_no_crash_as_shipped_refuted: "
+            "(whatever is still queued is dropped), its wheel is stopped, and the idle-deadline / expiry timers are due one idle deadline "
+            "after the latest turn resp. not before expireTime. As shipped the property is refuted (C08_no_crash_as_shipped_refuted: "
             "unregistering a pending repeated task dereferences the nil handle). Each run replays ~2 500 scheduler histories (40 000 "
             "thorough) and ~1 500 histories of a real actor on a real ActorSystem (20 000 thorough) in virtual time (testing/synctest) "
             "through the Go code and the models inside Coq and compares the executed callbacks (instant in ms, task, ordinal), the "
@@ -40,9 +41,10 @@ MANIFEST = {
             "only up to the wheel's granularity (C08_oneshot_not_early_strict_refuted: a 25 ms one-shot can run 18.5 ms after its "
             "registration on a 10 ms wheel); wall-clock drift is outside the model (its clock is the wheel's). The actor-level model "
             "(coq/C08/ActorModel.v: callbacks as queued turns, idle deadline, expiry, restart, termination; one actor, no children) is "
-            "tied by differential runs; two safety theorems are proved about it (no callback runs after the actor has terminated and it "
-            "stays terminated; a terminated actor's wheel is stopped), 'idle deadline / expiry only when due' and 'callbacks are turns' "
-            "are checked by monitors only; histories in which a deadline timer shares its wheel bucket "
+            "tied by differential runs; three theorems are proved about it (no callback runs after the actor has terminated and it stays "
+            "terminated; a terminated actor's wheel is stopped; in every reachable state the pending idle timer expires one idle deadline "
+            "after the end of the latest turn and the pending expiry timer not before expireTime); 'callbacks are turns' is structural in "
+            "the model and checked by the overlap monitor; histories in which a deadline timer shares its wheel bucket "
             "with another timer are compared up to that bucket only (about a quarter of the generated actor histories). Two findings "
             "proposed in checks/c08_findings.json (callbacks of the previous incarnation run after a restart; day-moment tasks drift by "
             "an hour across daylight-saving changes) are reproduced only when listed as open. Trusted: the hand-written models (tied by "
